@@ -1033,7 +1033,34 @@ class Interp:
                 if v == FALSE:
                     return iconst(0)
                 return mk_sel(v, iconst(1), iconst(0))
-            if kind in ('int_to_int', 'ptr_to_ptr', 'transmute', 'float_to_float'):
+            if kind == 'float_to_float':
+                fw = {'f16': 16, 'f32': 32, 'f64': 64, 'f128': 128}
+                a_, b_ = fw.get((rv.get('from_ty') or {}).get('name')), fw.get((rv.get('ty') or {}).get('name'))
+                if a_ is None or b_ is None:
+                    raise Unsupported('float cast between unknown widths')
+                if b_ >= a_:
+                    return v              # widening is exact
+                # narrowing rounds to the narrower format: a different number in general
+                return ('fcall', 'round_to_f%d' % b_, v)
+            if kind == 'int_to_int':
+                iw = {'u8': 8, 'u16': 16, 'u32': 32, 'u64': 64, 'u128': 128, 'usize': 64, 'i8': 8, 'i16': 16, 'i32': 32, 'i64': 64,
+                      'i128': 128, 'isize': 64}
+                ft, tt = rv.get('from_ty') or {}, rv.get('ty') or {}
+                if ft.get('k') == 'char' or tt.get('k') == 'char' or ft.get('name') not in iw or tt.get('name') not in iw:
+                    return v if ft.get('k') not in ('uint', 'int') else ('icast', tt.get('name'), v)
+                fs, ts = ft['k'] == 'int', tt['k'] == 'int'
+                fb, tb = iw[ft['name']], iw[tt['name']]
+                lossless = (fs == ts and tb >= fb) or (not fs and ts and tb > fb)
+                if lossless:
+                    return v
+                if isinstance(v, tuple) and v and v[0] == 'ic':
+                    x = v[1] & ((1 << tb) - 1)
+                    if ts and x >= 1 << (tb - 1):
+                        x -= 1 << tb
+                    return iconst(x)
+                # truncation / reinterpretation of the sign: not the same number in general
+                return ('icast', tt['name'], v)
+            if kind in ('ptr_to_ptr', 'transmute'):
                 return v
             raise Unsupported('cast %s' % kind)
         if r == 'discriminant':
